@@ -36,6 +36,10 @@ def alphabet(full=True):
         a.append("get:0:%d" % pos)
         a.append("idx:0:%d" % pos)
     a.append("pop:0")
+    for k in range(0, 3):
+        a += ["pba:0:%d" % k, "eba:0:%d" % k, "ica:0:%d" % k]
+        for pos in range(0, 4):
+            a.append("empa:0:%d:%d" % (pos, k))
     a += ["copy:1:0", "move:1:0", "asg:0:1", "asg:1:0", "masg:0:1", "masg:1:0", "copy:0:0", "move:0:0",
           "asg:0:0", "masg:0:0", "copy:2:1", "move:0:1"]
     return a
@@ -147,8 +151,12 @@ def rand_seq(rng, n, kind, with_fuel, interior_range):
             op = "era:%d:%d" % (i, rng.below(s[0] + 2))
         elif r < 70:
             op = "pop:%d" % i
-        elif r < 76:
+        elif r < 73:
             op = "%s:%d:%d" % (rng.choice(["at", "get", "idx"]), i, rng.below(s[0] + 2))
+        elif r < 76 and kind == "c":
+            k = rng.below(s[0] + 1)
+            op = rng.choice(["pba:%d:%d" % (i, k), "eba:%d:%d" % (i, k), "ica:%d:%d" % (i, k),
+                             "empa:%d:%d:%d" % (i, rng.below(s[0] + 2), k)])
         elif r < 84 and kind == "c":
             xs = [1 + rng.below(9) for _ in range(rng.below(4))]
             if rng.chance(1, 2):
@@ -248,7 +256,7 @@ C06 = Prop(
          "operations behind 5 setups; fault enumeration: every operation x throw point 0..4 followed by probe "
          "operations; the same for a move-only element type; seeded random histories up to 40 operations with random "
          "throw points. Non-trivial: at least 2 operations. Distinct = distinct case line.",
-    harness=HARNESS, search=lambda dis, rng: gen_c06("thorough", rng)[:200000],
+    harness=HARNESS, search=lambda dis, rng: rng.shuffle(gen_c06("thorough", rng))[:30000],
     theorem_hint="NitroVerif.Props.C06.{history_safe,apply_safe,pstep_safe,capacity_fixed,failed_single_unchanged,"
                  "append_full_raises,pop_empty_raises,at_oob_raises,erase_oob_raises,range_overflow_raises}",
     level_text="Lean 4 proof by invariant over all operation histories on a pool of vectors and all throw schedules: "
@@ -269,7 +277,7 @@ C07 = Prop(
          "all pairs behind 6 setups, move-only element type, seeded random histories up to 40 operations; every step's "
          "size/capacity/forward/reverse contents compared with a plain capacity-bounded list (Ref). Non-trivial: at "
          "least 2 operations. Distinct = distinct case line.",
-    harness=HARNESS, search=lambda dis, rng: gen_c07("thorough", rng)[:200000],
+    harness=HARNESS, search=lambda dis, rng: rng.shuffle(gen_c07("thorough", rng))[:30000],
     theorem_hint="NitroVerif.Props.C07.{run_refines,apply_refines,copy_equal,move_transfers,move_assign_transfers,"
                  "copy_assign_equal,list_assign_replaces,reverse_is_reverse,shown_elements_are_callers}",
     level_text="Lean 4 refinement proof: for every capacity and every operation sequence the contents shown by the model "
